@@ -135,3 +135,18 @@ Section OnlyCommitsRollBack.
     apply inv_erun. apply inv_deliver. exact Hinv.
   Qed.
 End OnlyCommitsRollBack.
+
+(* ---------------------------------------------------------------- C06 after the fix: a leave proposal that reaches an admin
+   whose own commit is pending is queued (not auto-committed, not refused), and the result says so *)
+Section LeaveToPendingAdmin.
+  Lemma leave_to_pending_admin_queued : forall c e r,
+    e_kind e = 2 -> e_author e <> me c -> is_admin c = true -> k_pending (kc c) <> None ->
+    existsb (N.eqb (100000 + e_id e)) (k_seen (kc c)) = false ->
+    snd (leave_here c e r) = RPending /\ k_pending (kc (fst (leave_here c e r))) = k_pending (kc c) /\
+    k_props (kc (fst (leave_here c e r))) = k_props (kc c) ++ [e_id e].
+  Proof.
+    intros c e r _ _ Ha Hp Hseen. unfold leave_here. rewrite Hseen, Ha. cbv zeta.
+    destruct (k_pending (kc c)) as [p|] eqn:Ep; [|contradiction].
+    cbn [andb snd fst]. split; [reflexivity|]. split; [exact Ep|reflexivity].
+  Qed.
+End LeaveToPendingAdmin.
